@@ -140,6 +140,7 @@ namespace c15
         std::vector<ExecRec> execs;
         std::vector<int> signals;
         size_t written = 0;
+        std::string priv_err; // a callback was handed another callback's private pointer
 
         void on_write(const char *p, unsigned n)
         {
@@ -466,6 +467,26 @@ namespace c15
     // `enumerate`: 0 random histories, 1 mixed-radix enumeration, 2 long lines (capacity 250..262: one bulk key
     // fills the line up to around its capacity, so cursor and length pass 255, between a few short lines and
     // a few random keys)
+    // the bounded copy-out accessor (readline_linecpy / readline::linecpy): min(length, maxlen-1) characters, a terminator
+    // behind them, nothing further, for destinations shorter than, as long as and longer than the line
+    template <class F> void check_linecpy(const std::string &line, F call, const char *when)
+    {
+        const size_t L = line.size();
+        const size_t sizes[] = {1, 2, L ? L : 1, L + 1, L + 2, L / 2 + 1};
+        for (size_t maxlen : sizes)
+        {
+            vpbt::Exact dst(maxlen);
+            memset(dst.p, 0xEE, maxlen);
+            int r = call(dst.c(), maxlen);
+            size_t want = std::min(L, maxlen - 1);
+            VP_CHECK(r == (int)want, "linecpy_return", "%s: linecpy into %zu bytes returned %d, the line has %zu characters", when, maxlen, r, L);
+            VP_CHECK(memcmp(dst.p, line.data(), want) == 0 && dst.p[want] == 0, "linecpy_content", "%s: linecpy into %zu bytes: %s, want the first %zu characters of \"%s\" and a NUL",
+                     when, maxlen, vpbt::hexdump(dst.p, maxlen, 24).c_str(), want, line.c_str());
+            for (size_t i = want + 1; i < maxlen; i++)
+                VP_CHECK(dst.p[i] == 0xEE, "linecpy_wrote_further", "%s: linecpy into %zu bytes changed byte %zu behind the terminator", when, maxlen, i);
+        }
+    }
+
     template <class Term> void run_terminal(Src &s, Case &c, int enumerate, const char *name)
     {
         unsigned cap, H;
@@ -597,6 +618,7 @@ namespace c15
                          g.text.c_str(), g.len, w.c_str(), w.size());
                 VP_CHECK(g.terminated, "exec_unterminated", "%s: line[%u] handed to the execute callback is not NUL", when, g.len);
             }
+            VP_CHECK(sink->priv_err.empty(), "callback_privdata", "%s: %s", when, sink->priv_err.c_str());
             VP_CHECK(sink->signals.size() == ref.signals, "signal_count", "%s: %zu signal callbacks, reference %u", when, sink->signals.size(), ref.signals);
             if (ev == EV_CTRLC)
                 VP_CHECK(sink->signals.back() == 2, "signal_value", "%s: Ctrl-C delivered signal %d, expected SIGINT (2)", when, sink->signals.back());
